@@ -93,6 +93,12 @@ CHECKS = {
         '(aliasing, no copy), independence of owned copies, write-through without rebinding, exchange of referent values, and that referents not owned by the source are not moved from.',
    note=PROOF_NOTE + 'Loop-free: complete for the instantiated wrapper kinds and categories. Lifetimes are not modelled (owning = value member). xclosure_pointer / xproxy_wrapper and the purely type-level identities are not reached.',
    technique='CBMC code contracts (DFCC) on mechanically lowered closure / optional / bitset-reference code: references become pointers, aliasing is pointer equality in the contract; native replay with a copy-counting payload under ASan', design='4 C07'),
+ 'C09': dict(
+   text='PARTIAL: the half functions that the property requires to agree exactly with the float functions - ceil floor trunc round rint nearbyint lround lrint frexp ldexp scalbn scalbln modf ilogb logb - and nextafter, fdim, fmax, fmin '
+        'carry contracts against the float function applied to the exact value of the argument and converted back by the IEEE spec conversion (C08 spec functions), for all 2^16 arguments / 2^32 pairs / every exponent, with Annex F special cases. '
+        'The correctly-rounded / 1-ULP transcendental functions are NOT decided (no real-valued reference a contract can state): see not_reached.',
+   note=PROOF_NOTE + 'Partial claim (19 of the ~55 functions the property names). Round-to-nearest mode only; exception flags not modelled. The transcendental kernels are outside what a contract on this verifier can specify; an enumeration against an extended-precision reference would be a different technique.',
+   technique='CBMC code contracts (DFCC), full-domain symbolic inputs, bit-precise float reference functions from the CBMC library; native replay enumerates all 2^16 arguments against libm', design='4 C09'),
 }
 NA = {
  'C05': 'variant lifetimes under exceptions, placement-new into a recursive union and visitation tables built from lambdas: no C++ exception/lifetime semantics in CBMC and no faithful mechanical lowering; a hand-written model would be a different technique (DESIGN.md 6)',
